@@ -159,6 +159,10 @@ func TestVerifC14Start(t *testing.T) {
 				if round%2 == 0 && m == "many" {
 					m = "few"
 				}
+				// odd rounds exercise CleanupSubscriberEvents: most jobs of every subscriber are failed events
+				if round%2 == 1 && rng.Intn(100) < 70 {
+					m = "many"
+				}
 				mode[[2]int{s, i}] = m
 			}
 		}
@@ -237,8 +241,8 @@ func TestVerifC14Start(t *testing.T) {
 		// operator action on a live node: remove the failed events of ONE subscriber whose error starts with a prefix
 		cleanup := ""
 		if round%2 == 1 {
-			target := c14sSubs[rng.Intn(len(c14sSubs))].name
-			prefix := []string{"keeps", "keeps failing", "zzz", "failing"}[rng.Intn(4)]
+			target := c14sSubs[(round/2)%len(c14sSubs)].name
+			prefix := []string{"keeps", "keeps failing", "keeps", "failing"}[rng.Intn(4)]
 			cerr := n1.network.CleanupSubscriberEvents(target, prefix)
 			afterCleanup := n1.jobs(t, refIdx)
 			var removed []string
